@@ -146,6 +146,7 @@ djb_t *djb_compile(mzd_t *A) {
 
 void djb_apply_mzd(djb_t *m, mzd_t *W, const mzd_t *V) {
   assert(W->width == V->width);
+  mzd_set_ui(W, 0); /* the rows of W are accumulated into: start from zero whatever W held */
   rci_t i = m->length;
   while (i > 0) {
     --i;
